@@ -485,6 +485,12 @@ Proof.
   apply IH. intros c Hc. apply H. now right.
 Qed.
 
+Lemma sound_store_all E bs : sound (store_all E bs).
+Proof.
+  induction bs as [|[x v] r IH]; simpl; [apply sound_ret|].
+  apply sound_bind; [apply sound_store_var|intros; exact IH].
+Qed.
+
 Theorem ssound_exec_stmt T fuel E st :
   gk E = GPlain -> incl (stmt_targets st) T -> ssound T (exec_stmt fuel E st).
 Proof.
@@ -493,9 +499,10 @@ Proof.
   - apply ssound_of_sound. apply sound_bind; [apply sound_load_var|intros old].
     apply sound_bind; [apply sound_eval_plain; assumption|intros v].
     apply sound_bind; [apply sound_inplace_add|intros; apply sound_store_var_plain; assumption].
-  - apply ssound_of_sound. apply sound_bind; [pure_sound|intros; apply sound_store_var].
-  - apply ssound_of_sound. apply sound_bind; [pure_sound|intros; apply sound_store_var].
-  - apply ssound_of_sound. apply sound_bind; [pure_sound|intros; apply sound_store_var].
+  - apply ssound_of_sound. apply sound_bind; [pure_sound|intros; apply sound_store_all].
+  - apply ssound_of_sound. apply sound_bind; [pure_sound|intros; apply sound_store_all].
+  - apply ssound_of_sound. apply sound_bind; [pure_sound|intros; apply sound_store_all].
+  - apply ssound_of_sound. apply sound_bind; [pure_sound|intros; apply sound_store_all].
   - apply ssound_of_sound. apply sound_bind; [apply sound_alloc|intros; apply sound_store_var_plain; assumption].
   - apply ssound_of_sound. apply sound_bind; [apply sound_modify; auto with same|intros _].
     apply sound_bind; [apply sound_class_body; intros; apply sound_eval_plain; assumption|intros _].
@@ -742,4 +749,17 @@ Proof.
   - apply String.eqb_eq in E; subst k'. inversion H; subst.
     rewrite ns_get_update_notin by assumption. apply ns_get_set_same.
   - apply IH; assumption.
+Qed.
+
+(** every name of a from-list is bound to the attribute (or imported sub-module) of the ONE module the
+    statement names — never of a sub-module met earlier in the list *)
+Lemma from_binds_same_module mt ld key : forall names bs,
+  from_binds mt ld key names = Some bs ->
+  Forall2 (fun na b => fst b = snd na /\ mod_attr mt ld key (fst na) = Some (snd b)) names bs.
+Proof.
+  induction names as [|[n a] r IH]; intros bs H; simpl in H.
+  - inversion H. constructor.
+  - destruct (mod_attr mt ld key n) eqn:A; [|discriminate].
+    destruct (from_binds mt ld key r) eqn:B; [|discriminate].
+    inversion H; subst. constructor; [split; [reflexivity|exact A]|apply IH; reflexivity].
 Qed.
